@@ -188,6 +188,7 @@ def record_artifacts_as_dict(
         follow_symlink_dirs=follow_symlink_dirs,
         normalize_line_endings=normalize_line_endings,
         lstrip_paths=lstrip_paths,
+        base_path=base_path,
     )
 
     # Aggregate artifacts per resolver
